@@ -14,7 +14,7 @@
 
   Values are an arbitrary type `V` (the payload layer never looks into them); the only observation is
   `isNone` (the compiled unpacker's `None if x is None else ...` guard).  Per-field hooks are functions `V → V`.
-  Not modelled: forwarding to an old-style (non VariablePayload) superclass `__init__`, `__match_args__`.
+  Not modelled: `__match_args__`.
 -/
 namespace Ipv8.C20
 
@@ -83,6 +83,9 @@ structure PDef (V : Type) where
   defaults : KW V := []
   fixPack : List (String × (V → V)) := []
   fixUnpack : List (String × (V → V)) := []
+  /-- parameters of the `__init__` of an old-style (non VariablePayload) superclass, `class P(VariablePayload, Old)`;
+      empty when there is none.  Assumption about `Old.__init__`: it stores every argument under its own name. -/
+  superArgs : List String := []
 
 /-! ### CPython argument binding (model of the calling convention, not of repo code) -/
 
@@ -151,14 +154,36 @@ def initFmts {V : Type} (names : List String) (args : List V) : List Fmt → Ini
     | .error e => .error e
     | .ok st' => initFmts names args fs st'
 
-/-- VariablePayload.__init__ (no old-style superclass) -/
+/-- one round of the forwarding loop for an old-style superclass (l.47-52, as repaired: positional arguments are
+    consumed first, exactly like the main loop):
+    `fwd_args[arg] = args[index] if index < len(args) else kwargs.pop(arg); index += 1` -/
+def superSlot {V : Type} (args : List V) (arg : String) (st : InitSt V) : Except Err (InitSt V) :=
+  if h : st.index < args.length then
+    .ok { index := st.index + 1, kw := st.kw, attrs := (arg, args[st.index]) :: st.attrs }
+  else
+    match popKw st.kw arg with
+    | none => .error .keyError
+    | some (v, kw') => .ok { index := st.index + 1, kw := kw', attrs := (arg, v) :: st.attrs }
+
+/-- `for arg in super_argspec: ...` then `super().__init__(**fwd_args)` (stores each argument under its name) -/
+def superFwd {V : Type} (args : List V) : List String → InitSt V → Except Err (InitSt V)
+  | [], st => .ok st
+  | a :: as, st => match superSlot args a st with
+    | .error e => .error e
+    | .ok st' => superFwd args as st'
+
+/-- VariablePayload.__init__: forwarding to an old-style superclass, then
+    `base = index; for i in range(len(self.format_list) - index): ... self.format_list[i + base] ...` -/
 def vpInit {V : Type} (d : PDef V) (args : List V) (kw : KW V) : Except Err (Attrs V) :=
-  match initFmts d.names args d.fmts { index := 0, kw := kw, attrs := [] } with
+  match superFwd args d.superArgs { index := 0, kw := kw, attrs := [] } with
   | .error e => .error e
-  | .ok st =>
-    if args.length > st.index then .error .keyError      -- "missing N arguments!"
-    else if !st.kw.isEmpty then .error .keyError          -- "leftover keyword arguments"
-    else .ok st.attrs
+  | .ok st0 =>
+    match initFmts d.names args (d.fmts.drop st0.index) st0 with
+    | .error e => .error e
+    | .ok st =>
+      if args.length > st.index then .error .keyError      -- "missing N arguments!"
+      else if !st.kw.isEmpty then .error .keyError          -- "leftover keyword arguments"
+      else .ok st.attrs
 
 /-- constructor of the interpreted class -/
 def interpInit {V : Type} (d : PDef V) (args : List V) (kw : KW V) : Except Err (Attrs V) :=
